@@ -5,12 +5,10 @@ import "strings"
 func equalFold(a, b string) bool { return strings.EqualFold(a, b) }
 
 func spdxFlow(c *Ctx, prop string)  {}
-func spdxLoops(c *Ctx, prop string) {}
 
 func selfTest(c *Ctx, repo, verif string, extra map[string]any) {}
 
 func cdxFlow(c *Ctx)                      {}
-func cdxLoops(c *Ctx, prop string)        {}
 func cdxTreeAssembly(c *Ctx, prop string) {}
 
 func unionRules(c *Ctx)    {}
